@@ -87,6 +87,19 @@ pub fn replay(path: &str) {
                     rec["commit_root"] = json!(commit.cmr().to_string());
                     if let Ok(back) = commit.unfinalize_types(&ctx) { rec["unfinalize_types_root"] = json!(back.cmr().to_string()); }
                 }
+                // 6. the human-readable route: the same nodes written as named definitions, parsed (Node::from_parts),
+                //    where the text can express them (no filled disconnect; the root is called `root`, not `main`, so
+                //    that it may have any arrow)
+                {
+                    let user: Vec<J> = (1..=n).map(|i| if i == n { json!("root") } else { json!(format!("n{}", i)) }).collect();
+                    let parsed = guarded(|| simplicity::human_encoding::Forest::parse::<simplicity::jet::Core>(&crate::c17::text_of(dag, &json!(user))));
+                    if let Ok(Ok(f)) = parsed {
+                        if let Some(r) = f.roots().get("root") {
+                            rec["human_root"] = json!(r.cmr().to_string());
+                            rec["human_commit_root"] = json!(r.to_commit_node().cmr().to_string());
+                        }
+                    }
+                }
                 if let Ok(redeem) = root.finalize_unpruned() {
                     rec["redeem_root"] = json!(redeem.cmr().to_string());
                     if let Ok(cm) = redeem.unfinalize() { rec["unfinalize_root"] = json!(cm.cmr().to_string()); }
